@@ -89,7 +89,7 @@ _p('C03', ['r_table'],
    "wasm-encoder's own reencode table prescribes (same opcode, every immediate fed by the same-named field, every "
    'index through the index space the oracle names, no narrowing cast on the way).',
    not_decided='that wasm-encoder serialises an Instruction value correctly (trusted)')
-PROPERTIES['C03']['rules'] = ['r_table', 'r_control', 'r_validate']
+PROPERTIES['C03']['rules'] = ['r_table', 'r_control', 'r_validate', 'r_visit', 'r_pushpair']
 
 _p('C06', ['r_edges', 'r_segments'],
    'The links the closure walks exist: every active element / data segment is registered on the table / memory it '
@@ -126,7 +126,7 @@ _p('C14', ['r_gates', 'r_features'],
    'last, non-loop on_parse call; the wasmparser feature set is extracted and compared with the property.',
    not_decided='that the bytes of the producers/name sections written by wasm-encoder are what the fields say (trusted)')
 
-_p('C05', ['r_validate', 'r_features', 'r_table', 'r_norec'],
+_p('C05', ['r_validate', 'r_features', 'r_table', 'r_norec', 'r_control'],
    'Validation gate: Module::parse, LocalFunction::parse and parse_local_functions are evaluated with nothing inlined; per '
    'wasmparser::Payload variant / per operator / per locals group the in-crate handler must be preceded by the matching '
    'wasmparser validator call on the same data with its error propagated; unsupported payloads must end in Err. '
@@ -178,9 +178,9 @@ _p('C08', ['r_nondet', 'r_restore', 'r_emitorder', 'r_cache', 'r_gates', 'r_cust
    'reset by every function that hands out mutable access next to it.',
    not_decided='byte equality after an extra parse/emit round trip (needs canonical-form reasoning about wasm-encoder and the '
                'parser; not claimed); determinism of wasm-encoder itself')
-PROPERTIES['C04']['rules'] = ['r_flow', 'r_segments']
+PROPERTIES['C04']['rules'] = ['r_flow', 'r_segments', 'r_pushpair', 'r_emitorder']
 
-_p('C01', ['r_table', 'r_control', 'r_flow', 'r_segments', 'r_emitorder', 'r_validate'],
+_p('C01', ['r_table', 'r_control', 'r_flow', 'r_segments', 'r_emitorder', 'r_validate', 'r_visit', 'r_pushpair'],
    'The four mechanisms the property names are decided structurally: (1) every cross reference is an arena id that is turned '
    'back into an index of the same index space (R-TABLE for operands, R-FLOW/R-FLOW-SEG for module-level records, segments, '
    'initialisers, start), with index spaces assigned before use in one fixed section order (R-EMITORDER); (2) branch labels '
